@@ -407,7 +407,8 @@ function runCase(G, c) {
     res.problems.push({ step: -1, what: 'creation threw', msg: String(e && e.stack || e) })
     return res
   }
-  res.bkeys = B ? Object.keys(B) : []
+  // the fields the map advertises, as the runtime asks (`map[field]`): own keys, and whatever else answers
+  res.bkeys = B ? Object.keys(B).concat(Object.keys(data || {}).filter((k) => !Object.prototype.hasOwnProperty.call(B, k) && B[k])) : []
   res.bmDisabled = w.bindingMapDisabled
   check(-1, w, c.tree, undefined)
   if (c.paths && res.ok) {
@@ -425,7 +426,8 @@ function runCase(G, c) {
       if (s.op === 'update') {
         w.update(data, s.u === true ? true : toPathTree(s.u))
       } else if (s.op === 'bm') {
-        if (w.bindingMapDisabled || !B || !Object.prototype.hasOwnProperty.call(B, s.field)) {
+        // (advertised = what the runtime's own test sees: `const updaters = map[field]; if (!updaters) return false`)
+        if (w.bindingMapDisabled || !B || !B[s.field]) {
           // not advertised: the runtime falls back to the tree update; nothing is demanded here, and the
           // rest of this history no longer applies to the instance
           res.bmSkipped = (res.bmSkipped || 0) + 1
